@@ -360,6 +360,12 @@ func parseImplementsAnnotation(
 	} else {
 		// Look up in imports
 		imp := imports.Find(annotation.PackageName)
+		// An import whose package name is known binds that name (or its explicit alias) only:
+		// a match on the import path alone does not make the qualifier visible in this file
+		if imp != nil && imp.PackageName != "" &&
+			imp.Alias != annotation.PackageName && imp.PackageName != annotation.PackageName {
+			imp = nil
+		}
 		if imp != nil {
 			annotation.PackageFullPath = imp.FullPath
 			annotation.PackageNotFound = false
